@@ -260,8 +260,10 @@ class WebSocket(object):
             return
         if self.is_closing:
             yield events.Closed(message.code, message.reason)
-            self.state.closing = False
+            # Set closed first, so that a send from another thread
+            # never finds both flags clear.
             self.state.closed = True
+            self.state.closing = False
         else:
             yield events.Closing(message.code, message.reason)
             self.close(message.code, message.reason)
